@@ -79,12 +79,13 @@ func c10Reset(e *Env, s *Sched) {
 	}
 	// subject: a lookup in the recorded-status map (map[int]NodeStatus)
 	isRecorded := func(v ssa.Value) bool {
-		lk, ok := ir.Deep(v).(*ssa.Lookup)
-		if !ok {
-			return false
+		if lk, ok := ir.Deep(v).(*ssa.Lookup); ok {
+			mt, ok := lk.X.Type().Underlying().(*types.Map)
+			return ok && strings.HasSuffix(ir.NamedType(mt.Elem()), ".NodeStatus")
 		}
-		mt, ok := lk.X.Type().Underlying().(*types.Map)
-		return ok && strings.HasSuffix(ir.NamedType(mt.Elem()), ".NodeStatus")
+		// or the node's status read in place (not yet reset when it is tested)
+		p, ok := e.pathThroughParams(v)
+		return ok && p.Suffix("State.Status")
 	}
 	ff := e.Facts(fn)
 	resetSet := ir.EnumSet{}
@@ -183,7 +184,7 @@ func c10Reset(e *Env, s *Sched) {
 	}
 	keptOK := !resetSet[s.val("NodeStatusSuccess")] && !resetSet[s.val("NodeStatusSkipped")]
 	r.Check(keptOK, "setupRetry: finished / skipped nodes are reset only when an upstream node is re-executed", e.InstrPos(reset),
-		"a step that completed successfully (or was skipped) in the recorded run is reset although nothing upstream of it is re-executed: the retry re-runs steps it must keep", "reset under: {"+strings.Join(resetSet.Names(s.NS), ",")+"}")
+		"a step that completed successfully (or was skipped) in the recorded run is reset although nothing upstream of it is re-executed: the retry re-runs steps it must keep", append([]string{"reset under: {" + strings.Join(resetSet.Names(s.NS), ",") + "}"}, facts...)...)
 	covered := ir.EnumSet{}
 	for v := range resetSet {
 		covered[v] = true
@@ -298,7 +299,17 @@ func c10Reset(e *Env, s *Sched) {
 							return false
 						}
 						bi, isB := c.Call.Value.(*ssa.Builtin)
-						return isB && bi.Name() == "append" && len(c.Call.Args) == 2 && ir.Resolve(c.Call.Args[1]) == ir.Resolve(el.Ranged)
+						if !isB || bi.Name() != "append" || len(c.Call.Args) != 2 {
+							return false
+						}
+						a, b := ir.Resolve(c.Call.Args[1]), ir.Resolve(el.Ranged)
+						if a == b {
+							return true
+						}
+						// the same out-edge list looked up again
+						la, okA := a.(*ssa.Lookup)
+						lb, okB := b.(*ssa.Lookup)
+						return okA && okB && SameValue(la.X, lb.X) && SameValue(la.Index, lb.Index)
 					},
 					Bad: func(in ssa.Instruction) bool { return in == outer.Header.Instrs[0] },
 				})
@@ -464,13 +475,20 @@ func c10Flows(e *Env, s *Sched) {
 	}
 	r.Check(len(retryCtor) > 0, "agent: a retry uses the retry graph constructor", "internal/agent", "the retry does not use NewExecutionGraphForRetry (no reset of the unfinished part)")
 	okNodes := false
+	// the agent's field holding the run being retried: what agent.New fills from Options.RetryTarget
+	retryField := "retryTarget"
+	if an := e.FnQuiet("internal/agent", "New"); an != nil {
+		if f := fieldFilledFrom(e, an, "Agent", "RetryTarget"); f != "" {
+			retryField = f
+		}
+	}
 	isRecordedNodes := func(v ssa.Value) bool {
 		ps, ok := e.DeepPaths(v)
 		if !ok || len(ps) == 0 {
 			return false
 		}
 		for _, p := range ps {
-			if !strings.HasSuffix(p.Dotted(), "retryTarget.Nodes") {
+			if !strings.HasSuffix(p.Dotted(), retryField+".Nodes") {
 				return false
 			}
 		}
@@ -642,7 +660,7 @@ func c08PersistedFields(e *Env, s *Sched) {
 				continue
 			}
 			name := ir.FieldNameOf(fa.X.Type(), fa.Field)
-			tr := &ir.Tracer{C: e.C, Through: map[string]bool{"internal/util.ParseTime": true, "internal/persistence/model.errFromText": true}}
+			tr := &ir.Tracer{C: e.C, Through: map[string]bool{"internal/util.ParseTime": true, "internal/persistence/model.errFromText": true, "fmt.Errorf": true}}
 			okf := false
 			for _, l := range tr.Trace(st.Val) {
 				if l.Kind == "field" && l.Name == name {
